@@ -181,7 +181,7 @@ def _judge_one(mod, acc, b, ma, em):
     acc.n += 1
     if nt:
         acc.nt_disjoint += 1
-        if len(acc.samples) < 2 and len(obs["blocks"]) > 2:
+        if len(acc.samples) < 1 and len(obs["blocks"]) > 3 and len(b.sk) >= 2:
             acc.sample({"method": b.witness(), "blocks": [[x["start"], x["end"], sorted(set(x["childs"]))]
                                                          for x in obs["blocks"]]})
     if len(acc.outcomes) < 100000:
@@ -285,6 +285,7 @@ def run_ship(mod, ctx, acc, name, k, parts, only=None):
         for key, msg in viol:
             m = "%s\n  method: %s:%s->%s%s" % (msg, name, cn, mn, desc)
             acc.violation(key, w, m)
+            acc.count("shipped_violations[%s]" % key)
             msgs.append(m)
     return msgs
 
